@@ -632,6 +632,10 @@ def build(tier, rng):
                 if ci and xi:
                     continue  # settings and context are varied one at a time around the base
                 pws, near = (grid, want_near) if (ci == 0 and xi == 0) else (few, NEAR_MIN)
+                if ctx.get("encoding") and not (ci == 0 and xi == 0):
+                    # a context encoding only matters for a non-ASCII password that is text in that encoding:
+                    # text and its encoded bytes must denote the same password (hash one form, verify the other)
+                    pws = list(pws) + [p for p in grid if p[0] in ("utf8-2", "nonutf8") and p not in pws]
                 if default_cost:
                     # the cost itself is not under test: one round trip (quick) / two passwords, 10 near misses (thorough)
                     pws = [p for p in grid if p[0] == "ascii" or (p[0] == "utf8-3" and not quick)]
